@@ -32,6 +32,9 @@ ISA = {
             'ra': {'type': 'register', 'register': 'a', 'bytecode': {'value': 1, 'size': 4}},
             'n': {'type': 'numeric', 'bytecode': {'value': 15, 'size': 4}, 'argument': {'size': 8, 'byte_align': True}}}},
         'addr': {'operand_values': {'ad': {'type': 'address', 'argument': {'size': 16, 'byte_align': True}}}},
+        # enumeration keys that differ only in letter case are different keys, in every run
+        'cased': {'operand_values': {'k': {'type': 'enumeration', 'bytecode': {'size': 4, 'value_dict': {'z': 1, 'Z': 2, 'zed': 3, 'ZED': 4, 'Nz': 5, 'nZ': 6}},
+                                           'argument': {'size': 8, 'byte_align': True, 'value_dict': {'z': 0x11, 'Z': 0x22, 'zed': 0x33, 'ZED': 0x44, 'Nz': 0x55, 'nZ': 0x66}}}}},
         # two alternatives of one kind that accept the same text: whichever rule orders them, it is the same in every run
         'two': {'operand_values': {
             'short': {'type': 'numeric', 'bytecode': {'value': 1, 'size': 4}, 'argument': {'size': 8, 'byte_align': True}},
@@ -54,6 +57,7 @@ ISA = {
         'w': {'bytecode': {'value': 0xC3, 'size': 8}},
         'jmp': {'bytecode': {'value': 0x4C, 'size': 8}, 'operands': {'count': 1, 'operand_sets': {'list': ['addr']}}},
         'pick': {'bytecode': {'value': 0x7, 'size': 4}, 'operands': {'count': 1, 'operand_sets': {'list': ['two']}}},
+        'sel': {'bytecode': {'value': 0x8, 'size': 4}, 'operands': {'count': 1, 'operand_sets': {'list': ['cased']}}},
     },
     'macros': {'mac': [{'operands': {'count': 2, 'operand_sets': {'list': ['reg', 'imm']}}, 'instructions': ['ld @REG(0), @ARG(1)', 'ldx @ARG(1)']}],
                'ma': [{'instructions': ['nop', 'l']}]},
@@ -81,6 +85,7 @@ PROGRAMS = [
     ('alternatives of one kind', {'main.asm': 'p0: pick 5\n pick KC\n pick b\n pick p0 + 1\n pick x + 5\n pick x+KD\n nop\n'}, ()),
     ('both quote characters and comments', {'main.asm': ' .cstr "it\'s"  ; don\'t "panic"\n .byte \'"\', 2  ; the quote character, isn\'t it\n'
                                                         ' .byte "a;b", 3 ; \'x\' "y"\n nop\n'}, ()),
+    ('enumeration keys differing in case', {'main.asm': ' sel z\n sel Z\n sel zed\n sel ZED\n sel Nz\n sel nZ\n nop\n'}, ()),
     ('several -D', {'main.asm': ' .byte LA, LB, LC\n#if LC >= 1\n nop\n#endif\n'}, ()),
     ('one name in several -D', {'main.asm': ' .byte LV\n#if LV >= 2\n nop\n#endif\n'}, ()),
 ]
@@ -93,7 +98,7 @@ FORMATS_B = ['listing', 'hex', 'intel_hex', 'minhex']
 def meta(tier):
     q = tier == 'quick'
     return {
-        'rule': 'part A: 14 programs (several include directories with unique, ambiguous, shadowing, nested, linked and missing files; registers; '
+        'rule': 'part A: 15 programs (enumeration keys that differ only in letter case; several include directories with unique, ambiguous, shadowing, nested, linked and missing files; registers; '
                 'mnemonics that are prefixes of one another or contain a period; macros; symbols; zones; several -D definitions, also of one name; directives whose size or target is computed from labels of another zone) x 2 output formats; the default '
                 'schedule and every schedule with one (thorough: two) deviating choice point (all permutations for sets of <=4 elements, '
                 'reversal and every rotation above) must produce identical status, image and pretty print; the default schedule is '
